@@ -50,3 +50,27 @@ pub fn tip_history(out: &mut crate::Out, tag: &str, seed: u64, net: NetID) {
         }
     }
 }
+
+
+/// the standard genesis configurations and one with stakes, realised and carried over two block boundaries
+pub fn genesis_configs(out: &mut crate::Out, tag: &str) {
+    use crate::world::World;
+    use melstf::GenesisConfig;
+    let mut w = World::new(out, tag);
+    let mut cfgs = vec![GenesisConfig::std_mainnet(), GenesisConfig::std_testnet()];
+    let mut stakes = BTreeMap::new();
+    for i in 0..3u8 {
+        stakes.insert(TxHash(tmelcrypt::hash_single([i, 1])), StakeDoc { pubkey: crate::keys::from_seed(&[i; 32]).0, e_start: i as u64, e_post_end: 2 + i as u64, syms_staked: CoinValue(100 * i as u128) });
+    }
+    cfgs.push(GenesisConfig { network: NetID::Custom08, init_coindata: mk_coin(Address(tmelcrypt::hash_single(b"g")), 12345, Denom::Erg, &[1, 2]), stakes, init_fee_pool: CoinValue(777), init_fee_multiplier: 3 });
+    for cfg in cfgs {
+        let sid = w.genesis(cfg);
+        if let Some(s1) = w.seal(sid, None, json!({"why": "genesis block"})) {
+            let n1 = w.next(s1);
+            if let Some(s2) = w.seal(n1, Some(ProposerAction { fee_multiplier_delta: 3, reward_dest: Address(tmelcrypt::hash_single(b"p")) }), json!({"why": "block 1"})) {
+                w.restart(s2);
+                w.next(s2);
+            }
+        }
+    }
+}
